@@ -526,3 +526,32 @@ mod test {
         )
     }
 }
+
+/// Verification hooks. Compiled only with `--cfg fclones_verif`.
+#[cfg(fclones_verif)]
+pub mod verif {
+    use super::*;
+
+    /// Describes the I/O plan `make_args` produces for an input file, without running anything:
+    /// (arguments, input kind, path the program reads, output kind, path fclones reads the output
+    /// from if it is a file). Kinds: "stdin" | "named" | "copied"; "stdout" | "named" | "in_place".
+    pub fn plan(
+        t: &Transform,
+        input: &Path,
+    ) -> (Vec<OsString>, &'static str, PathBuf, &'static str, Option<PathBuf>) {
+        let (args, input_conf, output_conf) = t.make_args(input);
+        let in_kind = match &input_conf {
+            Input::StdIn(_) => "stdin",
+            Input::Named(_) => "named",
+            Input::Copied(_, _) => "copied",
+        };
+        let in_path = input_conf.input_path().clone();
+        let (out_kind, out_path) = match &output_conf {
+            Output::StdOut => ("stdout", None),
+            Output::Named(p) => ("named", Some(p.clone())),
+            Output::InPlace(p) => ("in_place", Some(p.clone())),
+        };
+        // the Drop impls only remove files that were never created here
+        (args, in_kind, in_path, out_kind, out_path)
+    }
+}
